@@ -184,9 +184,9 @@ PROPS["C11"] = {
 
 PROPS["C14"] = {
     "harnesses": [
-        {"pkg": ".", "dir": "s3db", "entry": "VerifH_C14_faults",
-         "quick": {"params": "kinds=1", "workers": 16, "timeout": 1200},
-         "thorough": {"params": "kinds=2", "workers": 16, "timeout": 3000}},
+        {"pkg": ".", "dir": "s3db", "entry": "VerifH_C14_faults", "reach": ["end", "retried", "wrote-after-vacuum"],
+         "quick": {"params": "kinds=1", "workers": 16, "timeout": 1800},
+         "thorough": {"params": "kinds=2", "workers": 16, "timeout": 5000}},
         {"pkg": "kv", "dir": "kv", "entry": "VerifH_C14_kv_commit_retry", "quick": {"workers": 4, "timeout": 600}},
         {"pkg": "sqlite", "dir": "sqlite", "entry": "VerifH_C14_sqlite", "extra": [("s3db_export", ".")], "no_native": True,
          "quick": {"workers": 16, "timeout": 1800}},
